@@ -103,3 +103,70 @@ func onlyViaSkipped(b *ssa.BasicBlock, skipEdge func(b, s *ssa.BasicBlock) bool)
 	}
 	return true
 }
+
+// unlockBetweenIP generalises unlockBetween to an instruction b that may sit in a helper extracted from
+// root (a is in root): the lock <receiver>+suffix must not be released between a and the call that leads
+// to b, nor between the entry of each helper on the way and the next call / b itself.
+func unlockBetweenIP(p *core.Prog, root *ssa.Function, a, b ssa.Instruction, suffix string) bool {
+	if a.Parent() != root {
+		// a itself sits in a helper: only the same-function case is supported beyond root
+		if a.Parent() == b.Parent() {
+			return unlockBetween(a.Parent(), a, b, a.Parent().Params[0].Name()+suffix)
+		}
+		return true
+	}
+	chain := core.SiteChain(p, root, b)
+	if chain == nil {
+		return true
+	}
+	top := chain[len(chain)-1]
+	if unlockBetween(root, a, top, root.Params[0].Name()+suffix) {
+		return true
+	}
+	for _, at := range chain[:len(chain)-1] {
+		fn := at.Parent()
+		if len(fn.Blocks) == 0 || len(fn.Blocks[0].Instrs) == 0 || len(fn.Params) == 0 {
+			return true
+		}
+		entry := fn.Blocks[0].Instrs[0]
+		if entry != at && unlockBetween(fn, entry, at, fn.Params[0].Name()+suffix) {
+			return true
+		}
+	}
+	return false
+}
+
+// returnedToRoot: the value returned by r (last result) is what root returns - r is in root, or in a helper
+// whose call is itself returned directly by its caller, up to root.
+func returnedToRoot(p *core.Prog, root *ssa.Function, r *ssa.Return) bool {
+	f := r.Parent()
+	for depth := 0; f != root && depth < 6; depth++ {
+		site := core.SingleSite(p, f)
+		if site == nil {
+			return false
+		}
+		direct := false
+		core.Instrs(site.Parent(), func(ins ssa.Instruction) {
+			r2, ok := ins.(*ssa.Return)
+			if !ok || r2.Block() == site.Parent().Recover {
+				return
+			}
+			rv := core.RetVals(r2)
+			if len(rv) == 0 {
+				return
+			}
+			last := core.Resolve(rv[len(rv)-1])
+			if last == ssa.Value(site) {
+				direct = true
+			}
+			if ex, isE := last.(*ssa.Extract); isE && ex.Tuple == ssa.Value(site) && ex.Index == f.Signature.Results().Len()-1 {
+				direct = true
+			}
+		})
+		if !direct {
+			return false
+		}
+		f = site.Parent()
+	}
+	return f == root
+}
